@@ -1,4 +1,5 @@
 import Vata.Parse
+import Driver.NfaHist
 /-!
 # vdriver – the model side of the correspondence check
 
@@ -283,6 +284,7 @@ def dispatch (kind : String) (args res : List String) : Except String (Findings 
   | "simup" => checkSim args res true
   | "compl" => checkCompl args res
   | "rename" => checkRename args res
+  | "nfah" => NfaHist.check args res
   | _ => throw s!"unknown kind {kind}"
 
 def toks (line : String) : List String := (line.trimAscii.toString.splitOn " ").filter (· != "")
